@@ -4689,7 +4689,9 @@ impl GlobalInferenceCtx<'_> {
 
                             if let Some(size) = size {
                                 // we must infer it manually because it might not
-                                // have been inferred.
+                                // have been inferred (e.g. in the type annotation of a global).
+                                self.infer_expr(*size)?;
+
                                 let usize_ty = Ty::UInt(u8::MAX).into();
                                 if !self.expect_match(
                                     self.tys[self.loc][*size],
